@@ -1,7 +1,980 @@
-// Package frontdocs is one of the three fronts of check C09 (see ../main.go).
+// Package frontdocs is front (b) of check C09 (see ../main.go): hostile token / JSON documents.
+//
+// Grammar-generated JSON documents (gen.go) are fed
+//
+//	phase 1  raw, to every exported JSON / text decoder of pkg/oidc (and the few of pkg/op, pkg/client, pkg/http) in
+//	         the five ways they are reached (raw.go);
+//	phase 2  wrapped as header.payload.signature, correctly signed by a key the verifier trusts, to the exported token
+//	         verifiers and the oidc.ParseToken + oidc.Check* pipeline (verify.go) and, through both routers, to every
+//	         place of the HTTP surface that accepts a token (world.go); a share of the documents is used as the
+//	         protected header instead of the payload;
+//	phase 3  genuine tokens of every kind (opaque / JWT access token, refresh token, ID token) in every slot and
+//	         under every declared token type, and string-level manglings of tokens;
+//	phase 4  deep (nesting to 10 000 and beyond) and huge documents, serially, each logged to
+//	         replay/C09.inflight.json before it is executed and run under a generous watchdog.
+//
+// Oracle (structural, from the statement of C09): no panic (attributed by stack: library frame -> violation
+// "C09:docs:panic:<site>", harness frame -> harness bug), and for HTTP a single well-formed response (one WriteHeader,
+// one JSON document, 3xx with a Location) with no mutating storage call journaled after the first byte of an error
+// response. What a decoder returns (error or value) is never judged.
 package frontdocs
 
-import "verif/internal/ev"
+import (
+	"crypto/sha256"
+	"encoding/base64"
+	"encoding/hex"
+	"encoding/json"
+	"fmt"
+	"math/rand/v2"
+	"os"
+	"path/filepath"
+	"regexp"
+	"strings"
+	"sync"
+	"sync/atomic"
+	"syscall"
+	"time"
+	"unicode/utf8"
 
-// Run executes the front and records into run. prefix is the violation-key prefix ("C09:docs:").
-func Run(run *ev.Run) {}
+	"github.com/zitadel/oidc/v3/pkg/oidc"
+
+	"verif/internal/ev"
+	"verif/internal/keys"
+	"verif/internal/mon"
+	"verif/internal/opdrv"
+)
+
+const (
+	phaseRaw    = 1
+	phaseTokens = 2
+	phaseStrs   = 3
+	phaseRisky  = 4
+	phaseStride = 100_000_000
+
+	maxWorkers = 16
+)
+
+// local (per worker) evidence, merged at the end: the shared ev.Run takes one mutex per call.
+type local struct {
+	hist     map[string]map[string]int64
+	distinct map[string]struct{}
+	sampled  map[string]bool
+}
+
+func newLocal() *local {
+	return &local{hist: map[string]map[string]int64{}, distinct: map[string]struct{}{}, sampled: map[string]bool{}}
+}
+
+func (l *local) count(h, b string) { l.countN(h, b, 1) }
+func (l *local) countN(h, b string, n int64) {
+	m := l.hist[h]
+	if m == nil {
+		m = map[string]int64{}
+		l.hist[h] = m
+	}
+	m[b] += n
+}
+
+type front struct {
+	run     *ev.Run
+	env     *venv
+	locals  [maxWorkers + 1]*local
+	worlds  [maxWorkers + 1]*world
+	calls   atomic.Int64
+	docs    atomic.Int64
+	corpus1 []docSpec
+	corpus2 []docSpec
+	fams2   []*family
+}
+
+func (f *front) flush() {
+	for _, l := range f.locals {
+		if l == nil {
+			continue
+		}
+		for h, m := range l.hist {
+			for b, n := range m {
+				f.run.CountN(h, b, n)
+			}
+		}
+		for k := range l.distinct {
+			f.run.Distinct(k)
+		}
+	}
+}
+
+func (f *front) world(worker int) *world {
+	w := f.worlds[worker]
+	if w == nil || w.uses >= 1500 {
+		w = newWorld(worker)
+		f.worlds[worker] = w
+	}
+	w.uses++
+	w.ensureLive()
+	return w
+}
+
+// ---------------------------------------------------------------------------------------------------------------
+
+func docLit(doc []byte) map[string]any {
+	sum := sha256.Sum256(doc)
+	m := map[string]any{"len": len(doc), "sha256": hex.EncodeToString(sum[:8])}
+	if len(doc) <= 4096 {
+		if utf8.Valid(doc) {
+			m["doc"] = string(doc)
+		}
+		m["doc_b64"] = base64.StdEncoding.EncodeToString(doc)
+	} else {
+		m["doc_prefix"] = fmt.Sprintf("%q", doc[:300])
+		m["doc_suffix"] = fmt.Sprintf("%q", doc[len(doc)-100:])
+	}
+	return m
+}
+
+var stackFrame = regexp.MustCompile(`(?m)^(\S.*)\n\t(/\S+\.go):(\d+)`)
+
+// innermostFrame returns function and file of the frame that raised the panic (first non-runtime frame).
+func innermostFrame(stack string) (fn, file string) {
+	s := stack
+	if i := strings.Index(stack, "\npanic("); i >= 0 {
+		s = stack[i+1:]
+	}
+	for _, m := range stackFrame.FindAllStringSubmatch(s, -1) {
+		if strings.Contains(m[2], "/runtime/") || strings.HasPrefix(m[1], "panic(") || strings.Contains(m[2], "/internal/mon/") {
+			continue
+		}
+		fn = m[1]
+		if j := strings.LastIndex(fn, "("); j > 0 && strings.HasSuffix(fn, ")") {
+			fn = fn[:j]
+		}
+		return fn, m[2]
+	}
+	return "", ""
+}
+
+// panicked turns a caught panic into a violation (library), a harness bug (our code) or - when a dependency of the
+// library panicked while decoding into a library type with no library frame in between - a violation keyed by the
+// dependency function.
+func (f *front) panicked(l *local, caseIdx int64, target string, pi *mon.PanicInfo, witness map[string]any) {
+	witness["front"] = "docs"
+	witness["target"] = target
+	witness["panic"] = pi.Value
+	st := pi.Stack
+	if len(st) > 6000 {
+		st = st[:6000]
+	}
+	witness["stack"] = st
+	l.count("docs.panics.by_target", target)
+	switch {
+	case pi.InRepo:
+		l.count("docs.panics.by_site", pi.Site())
+		f.run.Violation("C09:docs:panic:"+pi.Site(), caseIdx, fmt.Sprintf("panic %q in library code (%s) reached through %s", pi.Value, pi.Frame, target), witness)
+	default:
+		fn, file := innermostFrame(pi.Stack)
+		if strings.HasPrefix(file, "/verif/") || fn == "" {
+			f.run.HarnessBug(fmt.Sprintf("panic in harness code at %s (%s): %s", pi.Frame, target, pi.Value))
+			return
+		}
+		l.count("docs.panics.by_site", "dep:"+fn)
+		f.run.Violation("C09:docs:panic:dep:"+fn, caseIdx, fmt.Sprintf("panic %q in %s while %s decoded into a library type", pi.Value, fn, target), witness)
+	}
+}
+
+func cpuSeconds() float64 {
+	var ru syscall.Rusage
+	if syscall.Getrusage(syscall.RUSAGE_SELF, &ru) != nil {
+		return 0
+	}
+	return float64(ru.Utime.Sec+ru.Stime.Sec) + float64(ru.Utime.Usec+ru.Stime.Usec)/1e6
+}
+
+func outcomeDigest(ok, errs, panics int) string {
+	switch {
+	case panics > 0:
+		return "panic"
+	case ok == 0:
+		return "all-error"
+	case errs == 0:
+		return "all-ok"
+	}
+	return "mixed"
+}
+
+// ---- phase 1: raw decoders -----------------------------------------------------------------------------------
+
+func (f *front) specFor(phase int, i int, r *rand.Rand) docSpec {
+	switch phase {
+	case phaseRaw:
+		if i < len(f.corpus1) {
+			return f.corpus1[i]
+		}
+		return randomSpec(r, rawFamilies, 64, 16384)
+	default:
+		if i/2 < len(f.corpus2) {
+			return f.corpus2[i/2]
+		}
+		return randomSpec(r, f.fams2, 64, 16384)
+	}
+}
+
+func (f *front) rawCase(worker, i int) {
+	l := f.locals[worker]
+	r := f.run.CaseRand(200+phaseRaw, i)
+	spec := f.specFor(phaseRaw, i, r)
+	rc := &rctx{issuer: opdrv.DefaultIssuer, jti: "tok-1", kid: "kid-1", now: time.Now().Unix()}
+	doc := spec.render(rc)
+	f.feedAllRaw(l, int64(phaseRaw)*phaseStride+int64(i), i, &spec, doc, rc, nil)
+}
+
+// feedAllRaw feeds a document to the raw decoders.
+//
+// A claim-set document goes to the decoders of its own family, to three more decoders in rotation (a userinfo
+// document is a legal input of the ID-token decoder) and - member by member - the hostile values of its mutations go to
+// the member-level types (Audience, Time, Locale(s), SpaceDelimitedArray, Bool, Display, ActorClaims, ...), which a whole
+// claim set would only ever send down the same "not a string" branch. A document whose top level is not an object built
+// from a family (null, arrays, broken JSON, deep / huge values) goes to every decoder. only (risky phase) overrides the
+// selection.
+func (f *front) feedAllRaw(l *local, caseIdx int64, i int, spec *docSpec, doc []byte, rc *rctx, only func(name string) bool) (int, int, int) {
+	f.run.Eval()
+	f.docs.Add(1)
+	totalOK, totalErr, panics := 0, 0, 0
+	feed := func(t rawTarget, input []byte, what string) {
+		tname := t.name
+		report := func(way string, fn func()) {
+			f.calls.Add(1)
+			if pi := mon.Catch(fn); pi != nil {
+				panics++
+				l.count("docs.raw.panic", tname+"/"+way)
+				f.panicked(l, caseIdx, tname+"/"+way, pi, map[string]any{"spec": spec.describe(), "fed": what, "document": docLit(input)})
+			}
+		}
+		ok, errs := feedRaw(t, input, report)
+		totalOK += ok
+		totalErr += errs
+		l.countN("docs.raw.decoded_ok", tname, int64(ok))
+		l.countN("docs.raw.returned_error", tname, int64(errs))
+	}
+	objectDoc := spec.top.class == "object" && spec.post == ""
+	switch {
+	case only != nil:
+		for _, t := range rawTargets {
+			if only(t.name) {
+				feed(t, doc, "the document")
+			}
+		}
+	case !objectDoc:
+		for _, t := range rawTargets {
+			feed(t, doc, "the document")
+		}
+	default:
+		chosen := map[int]bool{}
+		for _, n := range affine[spec.fam.name] {
+			chosen[rawByName[n]] = true
+		}
+		for k := 0; k < 3; k++ {
+			chosen[(i*3+k)%len(rawTargets)] = true
+		}
+		for idx, t := range rawTargets {
+			if chosen[idx] {
+				feed(t, doc, "the document")
+			}
+		}
+		for _, m := range spec.muts {
+			if m.op == "del" {
+				continue
+			}
+			val := []byte(rc.expand(m.v.raw))
+			for _, t := range rawTargets {
+				if t.leaf {
+					feed(t, val, "the value of member "+m.name)
+				}
+			}
+		}
+	}
+	if only == nil {
+		extraRaw(doc, func(way string, fn func()) {
+			f.calls.Add(1)
+			if pi := mon.Catch(fn); pi != nil {
+				panics++
+				l.count("docs.raw.panic", way)
+				f.panicked(l, caseIdx, way, pi, map[string]any{"spec": spec.describe(), "document": docLit(doc)})
+			}
+		})
+	}
+	od := outcomeDigest(totalOK, totalErr, panics)
+	l.count("docs.raw.outcome", od)
+	l.count("docs.top", spec.topClass())
+	l.count("docs.size", sizeBucket(len(doc)))
+	for _, m := range spec.muts {
+		l.count("docs.value_class", m.v.class)
+		l.count("docs.mutation_op", m.op)
+	}
+	l.distinct["docs|raw|"+spec.fam.name+"|"+spec.topClass()+"|"+spec.firstMut()+"|"+od] = struct{}{}
+	if !l.sampled["raw."+od] {
+		l.sampled["raw."+od] = true
+		f.run.SampleKind("docs.raw."+od, map[string]any{"spec": spec.describe(), "document": docLit(clipDoc(doc)), "decoders_ok": totalOK, "decoders_error": totalErr, "panics": panics})
+	}
+	return totalOK, totalErr, panics
+}
+
+func clipDoc(doc []byte) []byte {
+	if len(doc) > 600 {
+		return doc[:600]
+	}
+	return doc
+}
+
+// ---- phase 2: signed tokens to verifiers and endpoints -------------------------------------------------------
+
+type tokenSet struct {
+	op, client string // correctly signed by the provider key / by the client key
+	unsigned   string // same header and payload, junk signature
+	how        string
+}
+
+// makeTokens wraps doc (as payload, or as protected header when the spec is of the header family).
+func (f *front) makeTokens(w *world, spec *docSpec, doc []byte, rc *rctx, r *rand.Rand) tokenSet {
+	if spec.fam == famJOSEHeader && spec.top.class == "object" {
+		pf := tokenFamilies[r.IntN(len(tokenFamilies))]
+		base := docSpec{fam: pf, top: objectTop, base: true}
+		payload := base.render(rc)
+		ts := tokenSet{how: "hostile protected header (correctly signed over the received header bytes), valid " + pf.name + " payload"}
+		ts.unsigned = keys.Raw(doc, payload, []byte("not-a-signature"))
+		ts.client = signRaw(w.ckey, doc, payload)
+		if w.opKey.Alg == "ES256" {
+			ts.op = signRaw(w.opKey, doc, payload)
+		} else {
+			ts.op = signRaw(opKeyES(), doc, payload) // trusted by the direct verifiers, not by the RS256 world
+		}
+		return ts
+	}
+	ts := tokenSet{how: "document as payload"}
+	ts.op = sign(w.opKey, doc)
+	ts.client = sign(w.ckey, doc)
+	ts.unsigned = keys.Raw([]byte(`{"alg":"ES256","kid":"`+w.opKey.Kid+`"}`), doc, []byte("not-a-signature"))
+	return ts
+}
+
+func naturalKey(spec *docSpec) string {
+	if spec.top.class != "object" {
+		return "both"
+	}
+	switch spec.fam {
+	case famIDToken, famAccessToken:
+		return "op"
+	case famAssertion, famRequestObject:
+		return "client"
+	}
+	return "both"
+}
+
+func (f *front) tokenCase(worker, i int) {
+	l := f.locals[worker]
+	r := f.run.CaseRand(200+phaseTokens, i)
+	spec := f.specFor(phaseTokens, i, r)
+	w := f.world(worker)
+	rc := w.rctx(time.Now().Unix())
+	doc := spec.render(rc)
+	caseIdx := int64(phaseTokens)*phaseStride + int64(i)
+	f.feedTokens(l, w, caseIdx, i, &spec, doc, rc, r, nil, nil)
+}
+
+// feedTokens signs doc and feeds the tokens to the direct verifiers and the HTTP points.
+func (f *front) feedTokens(l *local, w *world, caseIdx int64, i int, spec *docSpec, doc []byte, rc *rctx, r *rand.Rand, onlyV, onlyP func(name string) bool) {
+	f.run.Eval()
+	f.docs.Add(1)
+	ts := f.makeTokens(w, spec, doc, rc, r)
+	nat := naturalKey(spec)
+	l.count("docs.top", spec.topClass())
+	l.count("docs.size", sizeBucket(len(doc)))
+	l.count("docs.tokens.family", spec.fam.name)
+	for _, m := range spec.muts {
+		l.count("docs.value_class", m.v.class)
+		l.count("docs.mutation_op", m.op)
+	}
+	pureBase := spec.top.class == "object" && spec.base && len(spec.muts) == 0 && spec.post == ""
+	tokenFor := func(key string, unsignedShare int) (string, string) {
+		if !pureBase && r.IntN(unsignedShare) == 0 {
+			return ts.unsigned, "unsigned"
+		}
+		if key == "client" {
+			return ts.client, "signed-by-client-key"
+		}
+		return ts.op, "signed-by-provider-key"
+	}
+	dim := spec.fam.name + "|" + spec.topClass() + "|" + spec.firstValueClass()
+	// Fan-out. A document whose top level is not a family object (null, arrays, broken JSON: few) goes everywhere. A
+	// claim-set document goes to half of the verifiers and a third of the HTTP points that trust its signer, in rotation
+	// (the systematic sweep visits every document twice - index i/2 - so that it sees both halves and both routers),
+	// and to a quarter of the others (whatever runs before the signature check runs for them too).
+	everywhere := spec.top.class != "object" || pureBase || onlyV != nil || onlyP != nil
+	// direct verifiers
+	for ti, t := range vtargets {
+		if onlyV != nil && !onlyV(t.name) {
+			continue
+		}
+		if !everywhere {
+			if nat != "both" && nat != t.key && r.IntN(4) != 0 {
+				continue
+			}
+			if (i+ti)%2 != 0 {
+				continue
+			}
+		}
+		tok, signedHow := tokenFor(t.key, 10)
+		variant := r.IntN(12)
+		var res vresult
+		f.calls.Add(1)
+		pi := mon.Catch(func() { res = t.call(f.env, tok, variant) })
+		if pi != nil {
+			l.count("docs.verify.outcome", t.name+" panic")
+			l.distinct["docs|verify|"+t.name+"|"+dim+"|panic"] = struct{}{}
+			f.panicked(l, caseIdx, t.name, pi, map[string]any{"spec": spec.describe(), "document": docLit(doc), "token": clip(tok, 6000), "token_is": ts.how + ", " + signedHow, "variant": variant})
+			continue
+		}
+		ec := errClass(res.err)
+		if res.nilValue {
+			ec = "nil-claims-without-error"
+		}
+		l.count("docs.verify.outcome", t.name+" "+ec)
+		l.distinct["docs|verify|"+t.name+"|"+dim+"|"+ec] = struct{}{}
+		if res.err == nil && !res.nilValue && signedHow != "unsigned" {
+			f.run.Observed("docs:accepted:" + t.name)
+		}
+		if k := "verify." + ec; !l.sampled[k] && len(l.sampled) < 40 {
+			l.sampled[k] = true
+			if ec == "ok" || ec == "json: cannot unmarshal" || ec == "ErrExpired" {
+				f.run.SampleKind("docs.verify."+ec, map[string]any{"target": t.name, "spec": spec.describe(), "document": docLit(clipDoc(doc)), "token_is": ts.how + ", " + signedHow, "error": fmt.Sprint(res.err)})
+			}
+		}
+	}
+	// HTTP points
+	for pi, p := range points {
+		if onlyP != nil && !onlyP(p.name) {
+			continue
+		}
+		if !everywhere {
+			if nat != "both" && nat != p.key && r.IntN(4) != 0 {
+				continue
+			}
+			if (i/2+pi)%3 != 0 {
+				continue
+			}
+		}
+		tok, signedHow := tokenFor(p.key, 12)
+		variant, nVariants := r.IntN(12), 1
+		if pureBase {
+			variant, nVariants = 0, 12 // the unmutated documents visit every variant of every point
+		}
+		router := (i + pi) % 2
+		for ; nVariants > 0; nVariants, variant = nVariants-1, variant+1 {
+			f.httpCall(l, w, caseIdx, router, p, tok, variant, dim, map[string]any{"spec": spec.describe(), "document": docLit(doc), "token_is": ts.how + ", " + signedHow})
+			if !w.Store.TokenLive(w.accessID) || !w.Store.RefreshLive(w.refresh) {
+				w.mint()
+			}
+		}
+	}
+}
+
+// httpCall sends one token to one point of one router and judges the response.
+func (f *front) httpCall(l *local, w *world, caseIdx int64, router int, p point, tok string, variant int, dim string, witness map[string]any) {
+	lit := p.lit(w, tok, variant)
+	f.calls.Add(1)
+	resp := w.send(router, lit)
+	rn := opdrv.RouterNames[router]
+	name := p.name + "@" + rn
+	witness["router"] = rn
+	witness["request"] = lit.clipped()
+	if resp.Panic != nil {
+		l.count("docs.http.outcome", name+" panic")
+		l.distinct["docs|http|"+name+"|"+dim+"|panic"] = struct{}{}
+		witness["response_so_far"] = resp.Brief()
+		f.panicked(l, caseIdx, name, resp.Panic, witness)
+		return
+	}
+	v := judgeHTTP(w, resp)
+	l.count("docs.http.outcome", name+" "+v.outcome)
+	l.distinct["docs|http|"+name+"|"+dim+"|"+v.outcome] = struct{}{}
+	if v.class != "" {
+		witness["front"] = "docs"
+		witness["target"] = name
+		witness["response"] = resp.Brief()
+		witness["write_header_calls"] = resp.WriteHeaderCalls
+		witness["journal"] = w.Store.Journal()
+		f.run.Violation("C09:docs:"+v.class+":"+p.name+"@"+rn, caseIdx, v.what, witness)
+		return
+	}
+	if strings.HasPrefix(v.outcome, "200") || strings.HasSuffix(v.outcome, "/login") || v.outcome == "302/redirect" {
+		f.run.Observed("docs:http-success:" + name)
+	}
+	if k := "http." + p.name + "." + v.outcome; !l.sampled[k] && len(l.sampled) < 60 {
+		l.sampled[k] = true
+		if p.name == "userinfo.bearer" || p.name == "token.jwt-bearer" || p.name == "te.subject.id_token" || p.name == "end_session.get" {
+			f.run.SampleKind("docs.http."+p.name+"."+v.outcome, map[string]any{"router": rn, "request": lit.clipped(), "response": resp.Brief(), "token_is": witness["token_is"], "spec": witness["spec"]})
+		}
+	}
+}
+
+// ---- phase 3: genuine tokens in every slot, mangled token strings ------------------------------------------------
+
+type strCase struct {
+	kind  string
+	token func(w *world) string
+}
+
+var genuineKinds = []strCase{
+	{"opaque-access-token", func(w *world) string { return w.access }},
+	{"jwt-access-token", func(w *world) string { return w.jwtAT }},
+	{"refresh-token", func(w *world) string { return w.refresh }},
+	{"id-token", func(w *world) string { return w.idToken }},
+	{"opaque-crafted-one-part", func(w *world) string { s, _ := w.Provider.Crypto().Encrypt("onlyonepart"); return s }},
+	{"opaque-crafted-three-parts", func(w *world) string { s, _ := w.Provider.Crypto().Encrypt("a:b:c"); return s }},
+	{"opaque-crafted-unknown-id", func(w *world) string { s, _ := w.Provider.Crypto().Encrypt("no-such-id:user-1"); return s }},
+	{"opaque-crafted-empty", func(w *world) string { s, _ := w.Provider.Crypto().Encrypt(""); return s }},
+	{"opaque-crafted-colon", func(w *world) string { s, _ := w.Provider.Crypto().Encrypt(":"); return s }},
+	{"random-base64url-32", func(w *world) string { return "QUJDREVGR0hJSktMTU5PUFFSU1RVVldYWVowMTIzNDU2Nzg5" }},
+	{"short", func(w *world) string { return "x" }},
+	{"dots", func(w *world) string { return ".." }},
+	{"null-payload-unsigned", func(w *world) string { return keys.Raw([]byte(`{"alg":"RS256"}`), []byte("null"), []byte("x")) }},
+}
+
+func mangle(r *rand.Rand, tok string) (string, string) {
+	parts := strings.Split(tok, ".")
+	seg := func() int { return r.IntN(len(parts)) }
+	switch r.IntN(22) {
+	case 0:
+		return tok[:r.IntN(len(tok)+1)], "truncate"
+	case 1:
+		i := seg()
+		parts = append(parts[:i], parts[i+1:]...)
+		return strings.Join(parts, "."), "drop-segment"
+	case 2:
+		return tok + "." + parts[seg()], "extra-segment"
+	case 3:
+		if len(tok) == 0 {
+			return "A", "flip-char"
+		}
+		b := []byte(tok)
+		b[r.IntN(len(b))] ^= byte(1 + r.IntN(127))
+		return string(b), "flip-char"
+	case 4:
+		i, j := seg(), seg()
+		parts[i], parts[j] = parts[j], parts[i]
+		return strings.Join(parts, "."), "swap-segments"
+	case 5:
+		parts[seg()] = ""
+		return strings.Join(parts, "."), "empty-segment"
+	case 6:
+		parts[seg()] = keys.B64([]byte("null"))
+		return strings.Join(parts, "."), "segment=null"
+	case 7:
+		parts[seg()] = "****"
+		return strings.Join(parts, "."), "segment-not-base64"
+	case 8:
+		parts[seg()] += "=="
+		return strings.Join(parts, "."), "segment-padded"
+	case 9:
+		parts[seg()] = base64.StdEncoding.EncodeToString([]byte("{\"alg\":\"none\"}\xff\xfe>>>???"))
+		return strings.Join(parts, "."), "segment-std-alphabet"
+	case 10:
+		parts[seg()] = strings.Repeat("QUFB", 16384)
+		return strings.Join(parts, "."), "segment-64k"
+	case 11:
+		return tok + " " + tok, "twice-with-space"
+	case 12:
+		return "Bearer " + tok, "bearer-prefix"
+	case 13:
+		return " " + tok + "\n", "whitespace"
+	case 14:
+		parts[0] = keys.B64([]byte(`{"alg":"none"}`))
+		return strings.Join(parts, "."), "alg-none"
+	case 15:
+		parts[0] = keys.B64([]byte(`{"alg":"HS256","kid":"c09-op-es"}`))
+		return strings.Join(parts, "."), "alg-hs256"
+	case 16:
+		parts[0] = keys.B64([]byte(`{"alg":"ES256","crit":["b64"],"b64":false}`))
+		return strings.Join(parts, "."), "crit-b64"
+	case 17:
+		parts[0] = keys.B64([]byte(`null`))
+		return strings.Join(parts, "."), "header=null"
+	case 18:
+		parts[0] = keys.B64([]byte(`{"alg":"ES256","jwk":{"kty":"EC","crv":"P-256","x":"AA","y":"AA"}}`))
+		return strings.Join(parts, "."), "header-embedded-jwk"
+	case 19:
+		return strings.Repeat(".", r.IntN(8)), "only-dots"
+	case 20:
+		return strings.ReplaceAll(tok, ".", "%2E"), "dots-percent-encoded"
+	default:
+		return tok + "\x00", "nul-suffix"
+	}
+}
+
+func (f *front) strCase(worker, i int) {
+	l := f.locals[worker]
+	r := f.run.CaseRand(200+phaseStrs, i)
+	w := f.world(worker)
+	caseIdx := int64(phaseStrs)*phaseStride + int64(i)
+	f.run.Eval()
+	f.docs.Add(1)
+	nEnum := len(genuineKinds) * len(points) * 2
+	if i < nEnum {
+		// enumerated: genuine token of kind k in slot p on router ro
+		k := genuineKinds[i%len(genuineKinds)]
+		p := points[(i/len(genuineKinds))%len(points)]
+		router := i / (len(genuineKinds) * len(points))
+		tok := k.token(w)
+		l.count("docs.strings.kind", k.kind)
+		for variant := 0; variant < 4; variant++ {
+			f.httpCall(l, w, caseIdx, router, p, tok, variant, "genuine:"+k.kind, map[string]any{"token_is": "genuine/crafted token string of kind " + k.kind, "token": clip(tok, 3000)})
+			w.ensureLive()
+		}
+		return
+	}
+	// random: a mangled token string to the parse pipeline, the verifiers and six random slots
+	bases := []string{w.access, w.jwtAT, w.refresh, w.idToken}
+	rc := w.rctx(time.Now().Unix())
+	for _, fam := range tokenFamilies {
+		spec := docSpec{fam: fam, top: objectTop, base: true}
+		bases = append(bases, sign(w.opKey, spec.render(rc)), sign(w.ckey, spec.render(rc)))
+	}
+	tok, how := mangle(r, bases[r.IntN(len(bases))])
+	if r.IntN(3) == 0 {
+		var h2 string
+		tok, h2 = mangle(r, tok)
+		how += "+" + h2
+	}
+	l.count("docs.strings.mangle", how)
+	wit := func() map[string]any {
+		return map[string]any{"token_is": "mangled token string: " + how, "token": clip(tok, 3000)}
+	}
+	for _, t := range vtargets {
+		variant := r.IntN(12)
+		var res vresult
+		f.calls.Add(1)
+		if pi := mon.Catch(func() { res = t.call(f.env, tok, variant) }); pi != nil {
+			l.count("docs.verify.outcome", t.name+" panic")
+			l.distinct["docs|verify|"+t.name+"|mangled:"+how+"|panic"] = struct{}{}
+			f.panicked(l, caseIdx, t.name, pi, wit())
+			continue
+		}
+		ec := errClass(res.err)
+		l.count("docs.verify.outcome", t.name+" "+ec)
+		l.distinct["docs|verify|"+t.name+"|mangled:"+how+"|"+ec] = struct{}{}
+	}
+	for n := 0; n < 6; n++ {
+		pi := r.IntN(len(points))
+		f.httpCall(l, w, caseIdx, (i+n)%2, points[pi], tok, r.IntN(12), "mangled:"+how, wit())
+		w.ensureLive()
+	}
+}
+
+// ---- phase 4: deep and huge documents, serial, logged before execution ---------------------------------------
+
+type riskySpec struct {
+	spec   docSpec
+	subset bool // quadratic-cost document: only a handful of targets
+	note   string
+	depth  int // total nesting depth of the rendered document (0: not a deep document)
+	// minimal (very long actor chains, tens of seconds per decode): 1 = one raw decode, one verifier, one endpoint on
+	// both routers; 2 = one raw decode only
+	minimal int
+}
+
+func riskyList(thorough bool) []riskySpec {
+	var out []riskySpec
+	cur := 0 // nesting depth of the value being added (0 for the long ones)
+	add := func(f *family, name string, v hval, subset bool) {
+		d := 0
+		if cur > 0 {
+			d = cur + 1
+		}
+		out = append(out, riskySpec{spec: docSpec{fam: f, top: objectTop, base: true, muts: []mut{{"set", name, v}}}, subset: subset, note: name + "=" + v.class, depth: d})
+	}
+	top := func(v hval) {
+		v.class = "top:" + v.class
+		out = append(out, riskySpec{spec: docSpec{fam: famIDToken, top: v}, note: v.class, depth: cur})
+	}
+	depths := []int{9999, 10000, 10001, 20000}
+	if thorough {
+		depths = []int{1000, 9998, 9999, 10000, 10001, 20000, 100000, 1000000}
+	}
+	for _, d := range depths {
+		cur = d
+		top(deepArray(d))
+		top(deepObject(d))
+		add(famIDToken, "aud", deepArray(d), false)
+		add(famIDToken, "act", deepObject(d), false)
+		add(famIDToken, "act", deepArray(d), false)
+		add(famIDToken, "address", deepObject(d), false)
+		add(famIDToken, "x", deepArray(d), false)
+		add(famIDToken, "exp", deepArray(d), false)
+		add(famIDToken, "locale", deepObject(d), false)
+		if thorough {
+			for _, n := range []string{"aud", "address", "x", "amr", "exp", "locale", "email_verified"} {
+				add(famIDToken, n, deepObject(d), false)
+				add(famIDToken, n, deepArray(d), false)
+			}
+		}
+		add(famAccessToken, "scope", deepArray(d), false)
+		add(famAssertion, "aud", deepArray(d), false)
+		add(famRequestObject, "ui_locales", deepArray(d), false)
+		add(famJOSEHeader, "jwk", deepObject(d), false)
+		add(famJOSEHeader, "crit", deepArray(d), false)
+		// actor chains deeper than the decoder's limit are rejected by the first scan: cheap
+		if d > 9999 {
+			add(famIDToken, "act", actChain(d), false)
+			add(famAccessToken, "act", actChain(d), false)
+		}
+	}
+	// actor chains below the limit: the library decodes them in quadratic time (each level re-decodes its subtree
+	// twice: depth 800 takes 0.3 s, depth 9 990 about a minute per decode), so the long ones go to a handful of targets
+	cur = 100
+	add(famIDToken, "act", actChain(100), false)
+	add(famAccessToken, "act", actChain(100), false)
+	add(famIDToken, "act", actChainLeaf(100, hv("arr.num", `[1]`)), false)
+	add(famIDToken, "act", actChainLeaf(100, hv("null", `null`)), false)
+	cur = 300
+	add(famIDToken, "act", actChain(300), true)
+	add(famAccessToken, "act", actChainLeaf(300, hv("arr.num", `[1]`)), true)
+	if thorough {
+		cur = 1000
+		add(famIDToken, "act", actChain(1000), true)
+		add(famAccessToken, "act", actChain(1000), true)
+		cur = 3000
+		add(famIDToken, "act", actChain(3000), true)
+		out[len(out)-1].minimal = 1
+		cur = 9998
+		add(famIDToken, "act", actChain(9998), true)
+		out[len(out)-1].minimal = 2
+	}
+	cur = 0
+	sizes := []int{1 << 16, 1 << 20}
+	if thorough {
+		sizes = append(sizes, 8<<20)
+	}
+	for _, n := range sizes {
+		full := thorough || n <= 1<<16
+		top(longString(n))
+		add(famIDToken, "sub", longString(n), false)
+		add(famIDToken, "aud", longArray(n/4), false)
+		add(famIDToken, "x", hval{"obj.many-keys." + sizeBucket(n), manyKeys(n / 12)}, false)
+		add(famIDToken, "exp", hval{"num.digits." + sizeBucket(n), strings.Repeat("9", n)}, false)
+		add(famIDToken, strings.Repeat("k", n), hv("num.0", "0"), false)
+		add(famRequestObject, "scope", hval{"str.many-scopes." + sizeBucket(n), `"` + strings.Repeat("a ", n/2) + `"`}, false)
+		if full {
+			for _, name := range []string{"iss", "aud", "nonce", "locale", "exp", "x"} {
+				add(famIDToken, name, longString(n), false)
+			}
+			add(famIDToken, "amr", longArray(n/4), false)
+			add(famIDToken, "exp", hval{"num.frac-digits." + sizeBucket(n), "1." + strings.Repeat("0", n) + "1"}, false)
+			add(famAssertion, "iss", longString(n), false)
+			add(famRequestObject, "ui_locales", hval{"str.many-locales." + sizeBucket(n), `"` + strings.Repeat("de ", n/3) + `"`}, false)
+			add(famJOSEHeader, "kid", longString(n), false)
+		}
+	}
+	return out
+}
+
+var riskyRawSubset = map[string]bool{"oidc.ActorClaims": true, "oidc.IDTokenClaims": true}
+var riskyVSubset = map[string]bool{"op.VerifyIDTokenHint[*IDTokenClaims]": true, "op.VerifyAccessToken[*AccessTokenClaims]": true}
+var riskyPSubset = map[string]bool{"end_session.get": true, "userinfo.bearer": true, "te.actor.id_token": true}
+var riskyPoints = map[string]bool{"userinfo.bearer": true, "userinfo.form": true, "introspect.token": true, "revoke.token": true, "end_session.get": true, "authorize.hint": true,
+	"te.subject.access_token": true, "te.subject.id_token": true, "te.actor.id_token": true, "te.actor.jwt": true, "token.jwt-bearer": true, "authorize.request": true,
+	"introspect.client_assertion": true, "token.code.client_assertion": true}
+
+func inflightPaths() []string {
+	dir := filepath.Join(ev.Out, "replay")
+	_ = os.MkdirAll(dir, 0o755)
+	paths := []string{filepath.Join(dir, "C09.inflight.json")}
+	if id := strings.ToUpper(filepath.Base(os.Args[0])); id != "C09" && id != "" {
+		paths = append(paths, filepath.Join(dir, id+".inflight.json")) // the name ./check derives for the dev entry point
+	}
+	return paths
+}
+
+func (f *front) riskyCase(i int, rs riskySpec) {
+	l := f.locals[maxWorkers]
+	caseIdx := int64(phaseRisky)*phaseStride + int64(i)
+	w := f.world(maxWorkers)
+	rc := w.rctx(time.Now().Unix())
+	doc := rs.spec.render(rc)
+	// log before executing: a fatal runtime error (stack overflow) cannot be recovered
+	inflight, _ := json.Marshal(map[string]any{
+		"property": "C09", "key": "C09:docs:fatal", "what": "document in flight when the process died", "seed": f.run.Seed, "tier": f.run.Tier, "case": caseIdx,
+		"witness": map[string]any{"front": "docs", "spec": rs.spec.describe(), "note": rs.note, "document": docLit(doc)},
+	})
+	for _, p := range inflightPaths() {
+		_ = os.WriteFile(p, inflight, 0o644)
+	}
+	l.count("docs.risky.class", rs.note)
+	done := make(chan struct{})
+	t0 := time.Now()
+	go func() {
+		defer close(done)
+		var onlyRaw, onlyV, onlyP func(string) bool
+		onlyP = func(n string) bool { return riskyPoints[n] }
+		onlyV = func(n string) bool { return !strings.HasPrefix(n, "oidc.ParseToken") || strings.Contains(n, "[*TokenClaims]") }
+		if rs.subset {
+			onlyRaw = func(n string) bool { return riskyRawSubset[n] }
+			onlyV = func(n string) bool { return riskyVSubset[n] }
+			onlyP = func(n string) bool { return riskyPSubset[n] }
+		}
+		spec := rs.spec
+		if rs.minimal > 0 {
+			onlyRaw = func(string) bool { return false }
+			f.calls.Add(1)
+			var c oidc.IDTokenClaims
+			var err error
+			if pi := mon.Catch(func() { err = json.Unmarshal(doc, &c) }); pi != nil {
+				f.panicked(l, caseIdx, "oidc.IDTokenClaims/unmarshal", pi, map[string]any{"spec": spec.describe(), "document": docLit(doc)})
+			}
+			l.count("docs.risky.long-actor-chain", fmt.Sprintf("depth %d decoded, error=%v", rs.depth, err != nil))
+			onlyV = func(n string) bool { return rs.minimal == 1 && n == "op.VerifyIDTokenHint[*IDTokenClaims]" }
+			onlyP = func(n string) bool { return rs.minimal == 1 && n == "end_session.get" }
+		}
+		if pi := mon.Catch(func() {
+			ok, errs, _ := f.feedAllRaw(l, caseIdx, i, &spec, doc, rc, onlyRaw)
+			if rs.depth > 10000 && ok == 0 && errs > 0 {
+				f.run.Observed("docs:beyond-depth-limit-rejected")
+			}
+			if rs.depth >= 9999 && rs.depth <= 10000 && ok > 0 {
+				f.run.Observed("docs:depth-10000-decoded")
+			}
+			r := f.run.CaseRand(200+phaseRisky, i)
+			// both routers: the case index parity selects the router of each point, so feed twice
+			f.feedTokens(l, w, caseIdx, 0, &spec, doc, rc, r, onlyV, onlyP)
+			f.feedTokens(l, w, caseIdx, 1, &spec, doc, rc, r, func(string) bool { return false }, onlyP)
+		}); pi != nil {
+			f.run.HarnessBug("panic in the risky-phase driver: " + pi.Value + " at " + pi.Frame)
+		}
+	}()
+	select {
+	case <-done:
+		d := time.Since(t0)
+		switch {
+		case d > 20*time.Second:
+			l.count("docs.risky.duration", "gt20s")
+		case d > 2*time.Second:
+			l.count("docs.risky.duration", "gt2s")
+		default:
+			l.count("docs.risky.duration", "le2s")
+		}
+	case <-time.After(20 * time.Minute):
+		// generous watchdog: nothing is concluded from time
+		f.run.Inconclusive("docs: watchdog fired on a deep/huge document (" + rs.note + ")")
+		<-done
+	}
+}
+
+// ---------------------------------------------------------------------------------------------------------------
+
+// Run executes the front and records into run.
+func Run(run *ev.Run) {
+	replay := run.ReplayCase()
+	if replay >= 0 {
+		var w struct {
+			Front string `json:"front"`
+		}
+		_ = json.Unmarshal(run.ReplayWitness(), &w)
+		if w.Front != "docs" {
+			return // the replay file belongs to another front
+		}
+	}
+	f := &front{run: run}
+	for i := range f.locals {
+		f.locals[i] = newLocal()
+	}
+	f.fams2 = append(append([]*family{}, tokenFamilies...), tokenFamilies...)
+	f.fams2 = append(f.fams2, famJOSEHeader) // 1/9 of the random token documents are hostile protected headers
+	f.corpus1 = corpus(rawFamilies, false)
+	f.corpus2 = corpus(append(append([]*family{}, tokenFamilies...), famJOSEHeader), false)
+
+	var pi *mon.PanicInfo
+	if pi = mon.Catch(func() { f.env = newVenv(); f.worlds[0] = newWorld(0) }); pi != nil {
+		run.HarnessBug("docs: cannot build the worlds: " + pi.Value + " at " + pi.Frame)
+		return
+	}
+
+	thorough := run.Tier == ev.Thorough
+	risky := riskyList(thorough)
+	nRaw := run.N(len(f.corpus1)+8000, len(f.corpus1)+25*8000+25*len(f.corpus1))
+	nTok := run.N(2*len(f.corpus2)+8000, 2*len(f.corpus2)+25*8000+50*len(f.corpus2))
+	nEnum := len(genuineKinds) * len(points) * 2
+	nStr := run.N(nEnum+1500, nEnum+25*1500)
+
+	if replay >= 0 {
+		phase, i := int(replay/phaseStride), int(replay%phaseStride)
+		worker := i % maxWorkers
+		switch phase {
+		case phaseRaw:
+			f.rawCase(worker, i)
+		case phaseTokens:
+			f.tokenCase(worker, i)
+		case phaseStrs:
+			f.strCase(worker, i)
+		case phaseRisky:
+			if i < len(risky) {
+				f.riskyCase(i, risky[i])
+				for _, p := range inflightPaths() {
+					_ = os.Remove(p)
+				}
+			}
+		}
+		f.flush()
+		// a replay of one case exercises few dimensions by design
+		run.Distinct("docs|replay|a")
+		run.Distinct("docs|replay|b")
+		return
+	}
+
+	for _, t := range vtargets {
+		if strings.HasPrefix(t.name, "oidc.ParseToken") || strings.Contains(t.name, "VerifyAccessToken[*IDTokenClaims]") {
+			continue
+		}
+		run.Mandatory("docs:accepted:" + t.name)
+	}
+	for _, p := range []string{"userinfo.bearer", "userinfo.form", "introspect.token", "revoke.token", "end_session.get", "end_session.post", "authorize.hint",
+		"te.subject.access_token", "te.subject.id_token", "te.actor.id_token", "introspect.client_assertion", "token.jwt-bearer", "authorize.request"} {
+		for _, rn := range opdrv.RouterNames {
+			run.Mandatory("docs:http-success:" + p + "@" + rn)
+		}
+	}
+	run.Mandatory("docs:beyond-depth-limit-rejected", "docs:depth-10000-decoded")
+
+	var wg sync.WaitGroup
+	wg.Add(1)
+	go func() {
+		defer wg.Done()
+		for i, rs := range risky {
+			f.riskyCase(i, rs)
+		}
+		for _, p := range inflightPaths() {
+			_ = os.Remove(p)
+		}
+	}()
+	guard := func(phase string, fn func(worker, i int)) func(worker, i int) {
+		return func(worker, i int) {
+			if pi := mon.Catch(func() { fn(worker, i) }); pi != nil {
+				run.HarnessBug(fmt.Sprintf("docs: panic in the %s driver (case %d): %s at %s", phase, i, pi.Value, pi.Frame))
+			}
+		}
+	}
+	timing := map[string]any{}
+	timed := func(name string, fn func()) {
+		t0, c0 := time.Now(), cpuSeconds()
+		fn()
+		timing[name] = fmt.Sprintf("wall %.1fs, process cpu %.1fs", time.Since(t0).Seconds(), cpuSeconds()-c0)
+	}
+	timed("raw", func() { ev.Parallel(nRaw, 0, guard("raw", f.rawCase)) })
+	timed("tokens", func() { ev.Parallel(nTok, 0, guard("tokens", f.tokenCase)) })
+	timed("strings", func() { ev.Parallel(nStr, 0, guard("strings", f.strCase)) })
+	timed("wait-for-risky", wg.Wait)
+	f.flush()
+	run.Extra("docs.timing_informational", timing)
+
+	run.Extra("docs.documents", f.docs.Load())
+	run.Extra("docs.target_calls", f.calls.Load())
+	run.Extra("docs.sizes", map[string]any{"raw_documents": nRaw, "token_documents": nTok, "token_strings": nStr, "risky_documents": len(risky),
+		"raw_targets": len(rawTargets), "verifier_targets": len(vtargets), "http_points": len(points), "routers": 2,
+		"systematic_raw": len(f.corpus1), "systematic_tokens": 2 * len(f.corpus2), "core_values": len(coreValues), "all_values": len(allValues)})
+}
